@@ -169,7 +169,7 @@ Qed.
 Lemma ops_targets o s : targets_in (touched o) (ops_of o s).
 Proof.
   destruct o as [si order shnums size rec renew|si sh size off data|si sh|si sh
-                |si sh size prev off data
+                |si sh size prev off data|si sh
                 |si order ri rm|si order hs e|si order nodeid we tw lease]; cbn [ops_of touched].
   - destruct (all_existing _ _ _ _); [|apply targets_in_nil].
     apply targets_in_seq. intros st Hst s'. apply in_app_or in Hst. destruct Hst as [Hst|Hst].
@@ -188,6 +188,7 @@ Proof.
       * destruct Hq as [<-|[]]. left. reflexivity.
       * exact Hq.
     + intros x q [<-|[]] [<-|[]]. left. reflexivity.
+  - apply targets_in_nil.
   - apply targets_in_seq. intros st Hst s'. apply in_map_iff in Hst. destruct Hst as [sh [<- Hsh]].
     apply step_targets_lease. apply in_map. eapply existing_In. exact Hsh.
   - apply targets_in_seq. intros st Hst s'. apply in_map_iff in Hst. destruct Hst as [sh [<- Hsh]].
@@ -481,7 +482,7 @@ Proof.
   intros Hl Hr Hs Hk si sh. change (recover ?x (Final si sh)) with (x (Final si sh)).
   revert si sh. change (same_data s (run_p (map fst (firstn k (ops_of o s))) s)).
   destruct o as [si0 order shnums size rec renew|si0 sh0 size off data|si0 sh0|si0 sh0
-                |si0 sh0 size prev off data
+                |si0 sh0 size prev off data|si0 sh0
                 |si0 order ri rm|si0 order hs e|si0 order nodeid we tw lease];
     try discriminate Hl; cbn [ops_of recs_ok] in *.
   - destruct (all_existing _ _ _ _).
@@ -503,7 +504,7 @@ Lemma lease_ops_preserve_inv o s :
 Proof.
   intros Hl Hr Hs. unfold plain_ops.
   destruct o as [si0 order shnums size rec renew|si0 sh0 size off data|si0 sh0|si0 sh0
-                |si0 sh0 size prev off data
+                |si0 sh0 size prev off data|si0 sh0
                 |si0 order ri rm|si0 order hs e|si0 order nodeid we tw lease];
     try discriminate Hl; cbn [ops_of recs_ok] in *.
   - destruct (all_existing _ _ _ _); [|exact Hs].
